@@ -920,3 +920,19 @@ Proof.
   eexists. eexists. eexists. split; [reflexivity|]. split; [reflexivity|].
   repeat split; vm_compute; reflexivity.
 Qed.
+
+(* the hypotheses of mutex_failure_last are satisfiable: the failure history cut
+   after goroutine 0's failed Send *)
+Example failure_last_hypotheses :
+  exists s c,
+    final true false (firstn 5 sched_failure) = Some s /\ holder s = None /\
+    done s = [] ++ [c] /\ c_ok c = false /\ w_marshal (c_val c) = Some (m x41) /\
+    (forall c' b', In c' ([] ++ [c]) -> w_marshal (c_val c') = Some b' -> lenN b' <= limit) /\
+    limit < 4294967296.
+Proof.
+  destruct (final true false (firstn 5 sched_failure)) as [s|] eqn:E; [|vm_compute in E; discriminate E].
+  vm_compute in E. injection E as <-. eexists. eexists.
+  split; [reflexivity|]. split; [reflexivity|]. split; [reflexivity|]. split; [reflexivity|].
+  split; [reflexivity|]. split; [|reflexivity].
+  intros c' b' [<-|[]] H. vm_compute in H. injection H as <-. vm_compute. discriminate.
+Qed.
